@@ -1,0 +1,72 @@
+//go:build verif
+
+// Package verifhook holds instrumentation points for external verification
+// harnesses. With the `verif` build tag the functions forward to handlers a
+// harness installs; with no handler installed they do nothing.
+package verifhook
+
+import "sync/atomic"
+
+// Enabled reports whether the hooks are compiled in.
+const Enabled = true
+
+type (
+	EventFunc func(kind string, a, b, c, d string)
+	YieldFunc func(point string, id string)
+	FaultFunc func(point string, arg string) error
+)
+
+var (
+	eventFn atomic.Pointer[EventFunc]
+	yieldFn atomic.Pointer[YieldFunc]
+	faultFn atomic.Pointer[FaultFunc]
+)
+
+// SetEvent installs (or, with nil, removes) the event handler.
+func SetEvent(f EventFunc) {
+	if f == nil {
+		eventFn.Store(nil)
+		return
+	}
+	eventFn.Store(&f)
+}
+
+// SetYield installs (or, with nil, removes) the yield handler.
+func SetYield(f YieldFunc) {
+	if f == nil {
+		yieldFn.Store(nil)
+		return
+	}
+	yieldFn.Store(&f)
+}
+
+// SetFault installs (or, with nil, removes) the fault handler.
+func SetFault(f FaultFunc) {
+	if f == nil {
+		faultFn.Store(nil)
+		return
+	}
+	faultFn.Store(&f)
+}
+
+// Event reports an observable step (kind plus up to four attributes).
+func Event(kind string, a, b, c, d string) {
+	if f := eventFn.Load(); f != nil {
+		(*f)(kind, a, b, c, d)
+	}
+}
+
+// Yield marks a point where a harness may hold the calling goroutine.
+func Yield(point string, id string) {
+	if f := yieldFn.Load(); f != nil {
+		(*f)(point, id)
+	}
+}
+
+// Fault lets a harness inject an error at a named point.
+func Fault(point string, arg string) error {
+	if f := faultFn.Load(); f != nil {
+		return (*f)(point, arg)
+	}
+	return nil
+}
